@@ -370,7 +370,10 @@ def seams(name_seed: int, clock_mode: str = "monotone"):
     import tempfile
     real_tempdir = tempfile.tempdir
     if (name_seed >> 7) & 1:
-        tempfile.tempdir = other_fs_tmpdir()
+        try:
+            tempfile.tempdir = other_fs_tmpdir()
+        except OSError:
+            pass  # (no second file system to be had: knob stays off)
     try:
         yield sio
     finally:
@@ -391,6 +394,8 @@ def other_fs_tmpdir() -> str:
     if not _OTHER_FS_TMP or not os.path.isdir(_OTHER_FS_TMP[0]):
         # (created and removed by simlib/main.py for the whole check)
         path = os.environ.get("VERIF_OTHERFS_TMP")
+        if path == "-":
+            raise OSError("no other file system available")
         if not path:
             import atexit
             import shutil
